@@ -45,7 +45,7 @@ pub const TABLE: &[(&str, &[(&str, f64)])] = &[
     ("C01", &[("fungible", 1.0), ("vault", 0.5), ("rwa", 0.5)]),
     ("C02", &[("fungible", 1.0), ("vault", 0.5), ("rwa", 0.5)]),
     ("C03", &[("smart_account", 1.0)]),
-    ("C04", &[("rwa", 1.0), ("rwa_real", 1.0)]),
+    ("C04", &[("rwa", 1.0), ("rwa_real", 1.0), ("identity", 0.25)]),
     ("C05", &[("vault", 1.0)]),
     ("C06", &[("access", 1.0), ("handshake", 0.25), ("gates", 0.25), ("forwarder", 0.25), ("sac_admin", 1.0), ("controller_ext", 0.25)]),
     ("C07", &[("handshake", 1.0)]),
